@@ -328,9 +328,13 @@ def caseMs (a b : String) (go : String) : String :=
     judge impl go (go == spec) (if impl == go then "unexpected-modelled-deviation" else "mem-size-differs-from-spec")
   | _, _ => "bad-op\tagree"
 
+/-- depth and the top four words of the stack the halting instruction found (what a tracer sees at the last step) -/
+def stackDigest (st : List Int) : String :=
+  "d" ++ toString st.length ++ ":" ++ String.intercalate "," ((st.take 4).map fun v => natHex v.toNat)
+
 def renderOutcome : Outcome → String
-  | .ok ret g => "ok " ++ hexOrDash ret ++ " " ++ toString g
-  | .revert ret g => "revert " ++ hexOrDash ret ++ " " ++ toString g
+  | .ok ret g st => "ok " ++ hexOrDash ret ++ " " ++ toString g ++ " " ++ stackDigest st
+  | .revert ret g st => "revert " ++ hexOrDash ret ++ " " ++ toString g ++ " " ++ stackDigest st
   | .fail f => "fail " ++ f.name
   | .skip op => "skip " ++ toString op
   | .fuel => "fuel"
